@@ -86,6 +86,7 @@ def check(ctx):
     check_single_child(ctx)
     check_patch_restricted(ctx)
     check_deepest_first(ctx)
+    check_lists_consulted_follow_tree(ctx)
     # under flatten the genes used (and reported) are the union of every
     # parent's list (shared with C17)
     from .C17 import check_flatten_union_complete
@@ -622,3 +623,61 @@ def check_deepest_first(ctx):
            "ancestors' lists from it, but visits all_parents root first: "
            'a descendant is patched with lists that already contain '
            "higher levels' markers, not with its ancestors' own lists")
+
+
+def check_lists_consulted_follow_tree(ctx):
+    """while reconciling the markers of a parent, validate_marker_lookup
+    consults only lists that the (possibly reduced) taxonomy gives it a
+    right to: the parent's own list, the lists of its ancestors, and the
+    root's.  The key of every read of the table therefore derives from the
+    tree (all_parents / parents) or is the constant 'None'; a read whose
+    key comes from iterating the table itself pulls in the groups of nodes
+    the tree no longer has (a dropped level), or of unrelated branches."""
+    db = ctx.db
+    fi = db.fn('type_assignment.marker_cache_v2:validate_marker_lookup')
+    ctx.touch(fi)
+    cfg = cfg_of(fi)
+    rd = rd_of(fi)
+    ex = Expander(fi)
+    rule = 'R-PROV/lists-consulted-follow-tree'
+    n = 0
+    for node in cfg.nodes:
+        if node.id not in rd.live:
+            continue
+        for root in node.exprs:
+            if root is None:
+                continue
+            for e in ast.walk(root):
+                if not (isinstance(e, ast.Subscript) and isinstance(
+                        e.ctx, ast.Load) and isinstance(e.value, ast.Name)
+                        and e.value.id == 'marker_lookup'):
+                    continue
+                n += 1
+                t = ex.expand(e.slice, node.id)
+                txt = fmt_term(t)
+                from_tree = T.has_call(t, 'parents') or any(
+                    isinstance(st, tuple) and st and st[0] == 'attr'
+                    and st[-1] == 'all_parents' for st in T.subterms(t))
+                const_root = t == ('const', "'None'")
+                from_table = False
+                for st in T.subterms(t):
+                    if isinstance(st, tuple) and st and st[0] == 'iterelem':
+                        it = st[1]
+                        if it == ('param', 'marker_lookup') or (
+                                isinstance(it, tuple) and T.contains(
+                                    it, ('param', 'marker_lookup'))
+                                and not T.contains(it, ('param',
+                                                        'taxonomy_tree'))):
+                            from_table = True
+                ok = (from_tree or const_root) and not from_table
+                ctx.ob(rule, f'validate_marker_lookup:read#{n - 1}',
+                       fi.loc(e), ok,
+                       'the list consulted belongs to the parent, one of '
+                       'its ancestors or the root' if ok else
+                       f'`{unparse(e)[:50]}` consults a list whose key '
+                       f'({txt[:60]}) does not come from the taxonomy: '
+                       'groups of nodes outside the parent\'s lineage '
+                       '(e.g. of a dropped level) enter its markers')
+    if n < 3:
+        raise AnalysisError('validate_marker_lookup: only {n} reads of the '
+                            'marker table found')
